@@ -256,6 +256,11 @@ def current_attr(ex, st, obj, attr, node):
     if attr == "index":
         m = series_map(ex, st, obj, node)
         return _out(m.keys if m.keys is not None else enumerate_domain(ex, st, m.dom), st)
+    if attr == "empty":
+        # pandas: a Series is empty iff it has no entries
+        m = series_map(ex, st, obj, node)
+        keys = m.keys if m.keys is not None else enumerate_domain(ex, st, m.dom)
+        return _out(keys.len == 0, st)
     table = dict(add=series_add, to_frame=series_to_frame)
     if attr in table:
         return _out(Intrinsic("Series." + attr, table[attr], recv=obj), st)
